@@ -83,8 +83,14 @@ def lhs_catalogue(W):
     shs = [(w, s) for (w, s) in T.shapes_upto(W) if w in (0, 1, W - 1, W)]
     seen = set()
     shs = [x for x in shs if not (x in seen or seen.add(x))]
-    for sh in shs:
-        w = sh[0]
+    for sh_ in shs:
+        w = sh_[0]
+        sh = sh_
+        class _S(tuple):
+            def __format__(self, spec):
+                return repr(tuple(self)).replace(" ", "")
+            __str__ = lambda self: repr(tuple(self)).replace(" ", "")
+        sh = _S(sh_)
         cat.append((f"sig{sh}", [sh], [], lambda x: x))
         if w >= 1:
             cat.append((f"as_signed{sh}", [sh], [], lambda x: x.as_signed()))
@@ -101,6 +107,7 @@ def lhs_catalogue(W):
     two = [(1, False), (2, True), (W, False)]
     for sa in two:
         for sb in two:
+            sa, sb = _S(sa), _S(sb)
             cat.append((f"cat{sa}{sb}", [sa, sb], [], lambda x, y: Cat(x, y)))
             for iw in (0, 1, 2):
                 cat.append((f"array{sa}{sb}[{iw}]", [sa, sb], [(iw, False)], lambda x, y, i: Array([x, y])[i]))
@@ -500,6 +507,67 @@ def check_fsm(k):
     return res
 
 
+def check_fsm_nested():
+    """An FSM nested in a State of another FSM: `m.next` binds to the innermost enclosing FSM."""
+    from amaranth.hdl import Signal, Module
+    from amaranth.hdl._ir import Fragment
+    name = "fsm-nested"
+    m = Module()
+    i0, i1 = Signal(name="i0"), Signal(name="i1")
+    with m.FSM(name="outer") as outer:
+        with m.State("IDLE"):
+            with m.If(i0):
+                m.next = "BUSY"
+        with m.State("BUSY"):
+            with m.FSM(name="inner") as inner:
+                with m.State("A"):
+                    with m.If(i1):
+                        m.next = "B"
+                with m.State("B"):
+                    m.next = "A"
+                    with m.If(i0 & i1):
+                        m.next = "DONE"
+                with m.State("DONE"):
+                    pass
+            with m.If(inner.ongoing("DONE")):
+                m.next = "IDLE"
+    frag = Fragment.get(m, platform=None)
+    so, si = outer.state, inner.state
+    eo, ei = dict(outer.encoding), dict(inner.encoding)
+    sync = frag.statements.get("sync", [])
+    comb = frag.statements.get("comb", [])
+    done = inner.ongoing("DONE")
+
+    def body(path):
+        ov = path.var("outer", *shape_range(so.shape().width, False))
+        iv = path.var("inner", *shape_range(si.shape().width, False))
+        path.assume(Or(*[ov == v for v in eo.values()]))
+        path.assume(Or(*[iv == v for v in ei.values()]))
+        a, b = path.var("i0", 0, 1), path.var("i1", 0, 1)
+        curr = Env([(so, ov), (si, iv), (i0, a), (i1, b)])
+        # ongoing() signals are comb outputs: evaluate comb first, then feed them as current values
+        og = {}
+        for fsm_ in (outer, inner):
+            for nm, sig in fsm_._data["ongoing"].items():
+                curr[sig] = 0
+        newc = Env(curr)
+        exec_stmts(comb, curr, newc)
+        path.prove(f"{name}::ongoing-done", to_sint(newc[done]) == ite(iv == ei["DONE"], 1, 0))
+        curr2 = Env(newc)
+        news = Env(curr2)
+        exec_stmts(sync, curr2, news)
+        busy = ov == eo["BUSY"]
+        exp_inner = ite(busy,
+                        ite(iv == ei["A"], ite(b != 0, ei["B"], iv),
+                            ite(iv == ei["B"], ite(sym.And(a != 0, b != 0), ei["DONE"], ei["A"]), iv)),
+                        iv)
+        exp_outer = ite(ov == eo["IDLE"], ite(a != 0, eo["BUSY"], ov),
+                        ite(busy, ite(iv == ei["DONE"], eo["IDLE"], ov), ov))
+        path.prove(f"{name}::inner-next", to_sint(news[si]) == to_sint(exp_inner))
+        path.prove(f"{name}::outer-next", to_sint(news[so]) == to_sint(exp_outer))
+    return runner.from_exploration(name, Exploration(name, body).run())
+
+
 # ------------------------------------------------------------------------------------------------
 
 def tasks(tier):
@@ -508,6 +576,7 @@ def tasks(tier):
     out = [("chunk", tuple(ts[i:i + chunk])) for i in range(0, len(ts), chunk)]
     out += [("dsl", k, dom) for k in range(len(PROGRAMS)) for dom in ("comb", "sync")]
     out += [("fsm", k) for k in range(len(FSMS))]
+    out += [("fsm-nested",)]
     return out
 
 
@@ -527,7 +596,7 @@ def run_one(t):
 def run_task(task):
     kind = task[0]
     if kind == "chunk":
-        parts = [run_one(t) for t in task[1]]
+        parts = [runner.guarded(T.tid(t), run_one, t) for t in task[1]]
         r = runner.merge_results(f"chunk[{T.tid(task[1][0])}..]", parts)
         r["source_excerpt"] = parts[0].get("source_excerpt")
         return r
@@ -535,6 +604,8 @@ def run_task(task):
         return check_dsl(task[1], task[2])
     if kind == "fsm":
         return check_fsm(task[1])
+    if kind == "fsm-nested":
+        return check_fsm_nested()
     if kind == "canary-lhs":
         # a module whose reference is deliberately computed on a different statement list
         from amaranth.hdl import Signal, Module
@@ -666,5 +737,6 @@ def replay(data):
     if isinstance(t, tuple) and t[0] in ("lhs", "prog-sim") and data.get("model"):
         return replay_template(t, data["model"], data["obligation"]) is not None
     r = run_task(("dsl", int(data["task"].split("prog")[1].split("/")[0]), data["task"].split("/")[1])) \
-        if data["task"].startswith("prog") else run_task(("fsm", int(data["task"][3:])))
+        if data["task"].startswith("prog") else (run_task(("fsm-nested",)) if data["task"] == "fsm-nested"
+                                                 else run_task(("fsm", int(data["task"][3:]))))
     return any(o["status"] == "refuted" for o in r["obligations"])
